@@ -870,6 +870,15 @@ def family_shapes():
             "start": "A",
         },
     )
+    # S32 a concrete start symbol with two refined fields over the same base type (disjoint ranges)
+    out.append(
+        {
+            "name": "S32:two-refined-ints",
+            "abstract": [],
+            "prods": [["W", None, None, [["lo", IR01], ["hi", ["ann", "int", ["IntRange", 2, 3]]]]]],
+            "start": "W",
+        },
+    )
     # S16 union of two abstract types of different minimum depth
     out.append(
         {
@@ -939,7 +948,7 @@ def finite_family(tier: str):
     fa = finite_alphabet()
     out = list(family_one_abstract(fa, 1 if tier == "quick" else 2, "F1"))
     out += [s for s in family_shapes() if s["name"].split(":")[0] in
-            ("S1", "S2", "S3", "S4", "S5", "S6", "S7", "S8", "S9", "S10", "S12", "S13", "S14", "S15", "S16", "S17", "S18", "S19", "S20", "S22", "S23", "S24", "S26", "S27", "S28", "S29", "S30", "S31")]
+            ("S1", "S2", "S3", "S4", "S5", "S6", "S7", "S8", "S9", "S10", "S12", "S13", "S14", "S15", "S16", "S17", "S18", "S19", "S20", "S22", "S23", "S24", "S26", "S27", "S28", "S29", "S30", "S31", "S32")]
     out += list(family_two_abstract(finite_alphabet, "F2"))
     out += list(family_nested(finite_alphabet, "F3"))
     return out
@@ -960,7 +969,7 @@ def general_family(tier: str):
     grammars declared with string annotations (`from __future__ import annotations`)."""
     out = finite_family(tier)
     fa = finite_alphabet()
-    pick = [s for s in family_shapes() if s["name"].split(":")[0] in ("S1", "S2", "S6", "S7", "S8", "S9", "S12", "S17", "S19", "S23", "S10")]
+    pick = [s for s in family_shapes() if s["name"].split(":")[0] in ("S1", "S2", "S6", "S7", "S8", "S9", "S12", "S17", "S19", "S23", "S10", "S32")]
     pick += [_one_abstract(f"F1:{i}", [fa[i]]) for i in (0, 5, 8, 10, 13, 15, 17, 19, 20)]
     out += stringified(pick)
     ia = infinite_alphabet()
